@@ -250,8 +250,16 @@ def check(cx):
             outs = r['fields'].get('nicknames')
             if isinstance(outs, tuple) and outs[0] == 'mapped':
                 el, facts = outs[2], outs[3]
-                src = ('elem', ('chunk_of', NN)) if False else None
                 okison = mentions(el, NN) and equivalent(facts, has(USERS, el))[0]
+            elif isinstance(outs, tuple) and outs[0] == 'local':
+                # the same filter written as a loop pushing into a vector
+                pushes = [x for x in wi.events if x.kind == 'local_mut' and x.data['local'] == outs and x.data['method'] in ('push', 'insert', 'extend')]
+                if len(pushes) == 1 and pushes[0].data['method'] == 'push':
+                    el = pushes[0].data['args'][0]
+                    # condition of the push relative to the condition of the reply (loop facts aside)
+                    extra = [a for a in atoms(pushes[0].pc) if a not in atoms(e.pc)]
+                    okison = mentions(el, NN) and len(extra) == 1 and extra[0] == has(USERS, el)[1] and \
+                        entails(pushes[0].pc, has(USERS, el))[0]
     if not okison:
         r3.violation('process_ison|filter', 'ISON does not list exactly the queried nicknames that are in the registry', loc=fi)
     fh = cx.fn('process_userhost')
